@@ -393,3 +393,54 @@ def check_time_objects(ctx, n=40):
             k = int(t.closest_index(x))
             if abs(smp[k] - x) > np.abs(smp - x).min():
                 ctx.violate(f"Time.closest_index({x}) = {k} is not the nearest sample", dict(cj, x=x), {"kind": "time_closest"})
+
+
+def _arrays_of(x, out, path="result"):
+    if isinstance(x, np.ndarray):
+        out.append((path, x))
+    elif isinstance(x, dict):
+        for k in x:
+            _arrays_of(x[k], out, f"{path}[{k!r}]")
+    elif isinstance(x, (tuple, list)):
+        for i, v in enumerate(x):
+            _arrays_of(v, out, f"{path}[{i}]")
+    elif hasattr(x, "coords") and isinstance(getattr(x, "coords"), np.ndarray):
+        out.append((path + ".coords", x.coords))
+
+
+def check_fresh(ctx, name, thunk, cj=None, kind="shared_result"):
+    """What a function hands back belongs to the caller: after the caller has overwritten the arrays (and cleared the
+    lists / dicts) it got, the same call gives the same values again.  (A memo that hands out its own storage, a
+    module-level default, a buffer reused between calls all fail this while every single call looks right.)"""
+    import copy
+
+    r1 = thunk()
+    snap = copy.deepcopy(r1)
+    arrs = []
+    _arrays_of(r1, arrs)
+    touched = 0
+    for _, a in arrs:
+        if a.flags.writeable and a.size:
+            try:
+                a[...] = (a * -3 + 7) if a.dtype.kind in "fciu" else ~a if a.dtype.kind == "b" else a
+                touched += 1
+            except Exception:
+                pass
+    for c in ([r1] if isinstance(r1, (list, dict)) else []):
+        try:
+            c.clear()
+            touched += 1
+        except Exception:
+            pass
+    r2 = thunk()
+    a2, a0 = [], []
+    _arrays_of(r2, a2)
+    _arrays_of(snap, a0)
+    ctx.count("fresh_result:" + name)
+    same = len(a2) == len(a0) and all(x.shape == y.shape and np.array_equal(x, y, equal_nan=(x.dtype.kind in "fc")) for (_, x), (_, y) in zip(a2, a0))
+    if not arrs and isinstance(snap, (list, tuple, dict)):
+        same = (r2 == snap)
+    if not same:
+        ctx.violate(f"{name}: after the caller overwrote the result of the first call, the same call returns different values "
+                    "(the function hands out storage it keeps using)", cj or {"op": "fresh_result", "function": name}, {"kind": kind, "function": name})
+    return touched
